@@ -177,6 +177,14 @@ fn container_sels(v: &Value) -> Vec<Value> {
             longer.push(json!(false));
             longer.push(json!(true));
             out.push(Value::Array(longer));
+            // surplus positions holding non-empty nested selectors (a per-element template made for a longer array)
+            let mut l2: Vec<Value> = a.iter().map(|_| json!(true)).collect();
+            l2.push(json!({"a": true}));
+            out.push(Value::Array(l2));
+            let mut l3: Vec<Value> = a.iter().map(|_| json!(false)).collect();
+            l3.push(json!([true]));
+            l3.push(json!({"a": {"b": true}}));
+            out.push(Value::Array(l3));
             out
         }
         _ => vec![],
